@@ -90,8 +90,36 @@ def _load(path: str):
 def _domain(spec):
     if spec == "bool":
         return [False, True]
+    if isinstance(spec, list):
+        return list(spec)
     lo, hi = spec
     return list(range(lo, hi))
+
+
+_RE_IN = re.compile(r"^\s*(\w+) in \(([-\d, ]+)\)\s*$")
+_RE_CMP = re.compile(r"^\s*(\w+) (==|<|<=|>|>=) (-?\d+)\s*$")
+
+
+def narrow(u):
+    """Turn preconditions of the form `x in (a, b, ..)`, `x == c`, `x < c` into explicit value lists of the parameter, so that the native
+    enumeration of the solution set does not walk the full product of the declared ranges.  The precondition itself is kept (it is what CrossHair sees)."""
+    if getattr(u, "_narrowed", False):
+        return u
+    params = dict(u.params)
+    for p in u.pre:
+        m = _RE_IN.match(p)
+        if m and m.group(1) in params and params[m.group(1)] != "bool":
+            vals = {int(x) for x in m.group(2).replace(" ", "").split(",") if x}
+            params[m.group(1)] = [v for v in _domain(params[m.group(1)]) if v in vals]
+            continue
+        m = _RE_CMP.match(p)
+        if m and m.group(1) in params and params[m.group(1)] != "bool":
+            c = int(m.group(3))
+            op = {"==": lambda v: v == c, "<": lambda v: v < c, "<=": lambda v: v <= c, ">": lambda v: v > c, ">=": lambda v: v >= c}[m.group(2)]
+            params[m.group(1)] = [v for v in _domain(params[m.group(1)]) if op(v)]
+    u.params = params
+    u._narrowed = True
+    return u
 
 
 _PRE_CACHE = {}
@@ -123,6 +151,7 @@ def known_findings():
 # Sel: generation
 # ------------------------------------------------------------------------------------------------
 def _solutions(u: Sel, extra_pre):
+    narrow(u)
     names = list(u.params)
     if u.solutions_func:
         f = _compile_pre(list(u.pre) + list(extra_pre), sorted(names))
@@ -197,6 +226,7 @@ def _sel_expected(u: Sel, fixed, extra_pre):
 
 
 def _sel_source(u: Sel, fixed, extra_pre, logfile, twin=False):
+    narrow(u)
     mod, fn = u.func.split(":")
     names = list(u.params)
     sig = ", ".join(f"{p}: {'bool' if u.params[p] == 'bool' else 'int'}" for p in names)
@@ -204,6 +234,8 @@ def _sel_source(u: Sel, fixed, extra_pre, logfile, twin=False):
     for p in names:
         if p in fixed:
             pres.append(f"{p} == {fixed[p]!r}")
+        elif isinstance(u.params[p], list):
+            pres.append(f"{p} in {tuple(u.params[p])!r}" if len(u.params[p]) != 1 else f"{p} == {u.params[p][0]!r}")
         elif u.params[p] != "bool":
             lo, hi = u.params[p]
             pres.append(f"{lo} <= {p} < {hi}")
@@ -214,6 +246,8 @@ def _sel_source(u: Sel, fixed, extra_pre, logfile, twin=False):
             conc.append(f"{p}={fixed[p]!r}")
         elif u.params[p] == "bool":
             conc.append(f"{p}=cbool({p})")
+        elif isinstance(u.params[p], list):
+            conc.append(f"{p}=cval({p}, {tuple(u.params[p])!r})")
         else:
             lo, hi = u.params[p]
             conc.append(f"{p}=cint({p}, {lo}, {hi})")
@@ -221,7 +255,7 @@ def _sel_source(u: Sel, fixed, extra_pre, logfile, twin=False):
     post = "False" if twin else "_"
     return f'''import sys
 sys.path[:0] = [{ROOT!r}]
-from vp.lib.sel import cint, cbool, run_native
+from vp.lib.sel import cint, cbool, cval, run_native
 from {mod} import {fn} as _BODY
 
 
